@@ -500,6 +500,20 @@ def _is_true(e):
         (e.get("kind") == "IntegerLiteral" and e.get("value") not in ("0",))
 
 
+def _static_initialiser(path, name, incs):
+    """literal a file-scope variable is initialised with (0 when it has no initialiser: static storage is zeroed)"""
+    for doc in c2lean.clang_ast(path, name, incs):
+        if doc.get("kind") == "VarDecl" and doc.get("name") == name:
+            ini = [c for c in doc.get("inner", []) if "Comment" not in c.get("kind", "") and not c.get("kind", "").endswith("Attr")]
+            if not ini:
+                return "0"
+            e = _strip(ini[0])
+            if e.get("kind") == "IntegerLiteral":
+                return e["value"]
+            raise Untranslatable("static initialiser of %s is not a literal" % name)
+    raise Untranslatable("definition of %s not found" % name)
+
+
 def dispenser(incs):
     path = os.path.join(vlib.REPO, "src", "cimba.c")
     G = {"next": "cmg_next_trial_idx", "arr": "cmg_experiment_arr", "sz": "cmg_trial_struct_sz",
@@ -628,6 +642,11 @@ def dispenser(incs):
         elif s.get("kind") == "ForStmt":
             loops.append(s)
     want = {G["next"]: None, G["arr"]: p_arr, G["sz"]: p_sz, G["func"]: p_fn, G["total"]: p_n}
+    d["reset_each_run"] = G["next"] in seen
+    if not d["reset_each_run"]:
+        # the counter is not stored by cimba_run_experiment: its value at the start of a run is the static initialiser for
+        # the first experiment of a process and whatever the previous experiment left for every later one
+        seen[G["next"]] = _static_initialiser(path, G["next"], incs)
     for g, src in want.items():
         if g not in seen:
             raise Untranslatable("cimba_run_experiment: %s is not initialised" % g)
@@ -728,6 +747,9 @@ def generate(impl):
           "def fetchIncr : Nat := %s" % disp["incr"],
           "/-- value cimba_run_experiment stores in the counter before the threads are created -/",
           "def initNext : Nat := %s" % disp["init_next"],
+          "/-- cimba_run_experiment stores `initNext` in the counter at the start of EVERY call (false: only the static initialiser,\n"
+          "    so a later experiment of the same process starts from what the previous one left) -/",
+          "def resetsCounterEachRun : Bool := %s" % ("true" if disp["reset_each_run"] else "false"),
           "/-- condition under which the worker leaves its loop instead of running trial `idx` -/",
           "def stopWhen (idx total : Nat) : Bool := %s" % disp["stop"],
           "/-- address of the element passed to the trial function -/",
